@@ -300,3 +300,30 @@ pub(crate) fn k_struct_write_fixed1() {
     macro_rules! same { ($($i:expr),*) => { $( if $i < want.len { vk_assert!(out.f[$i] == want.f[$i], "serialised subframe differs from the RFC 9639 coding of the structure"); } )* } }
     same!(0, 1, 2, 3, 4, 5, 6, 7, 8, 9, 10, 11, 12, 13, 14, 15);
 }
+
+// ------------------------------------------------------------------ structural residual parser: rejection rule (C17)
+// contract: Residuals::from_reader => Err(InvalidPartitionOrder) for the concrete illegal layouts below
+// (block not divisible, partitions not longer than the predictor order, more partitions than samples) —
+// the frames the streaming decoder rejects too (K-res_total_*).  The individual partition parser is replaced
+// by "returns an empty constant partition" so that a wrongly accepted layout is seen as Ok, not as a timeout.
+fn stub_partition_from_reader<const RICE_MAX: u32, I: SignedInteger, R: BitRead + ?Sized>(_r: &mut R, partition_len: usize) -> Result<ResidualPartition<RICE_MAX, I>, Error> {
+    Ok(ResidualPartition::Constant { partition_len })
+}
+macro_rules! k_struct_res_reject {
+    ($name:ident, $block:expr, $order:expr, $po:expr) => {
+        #[kani::proof]
+        #[kani::unwind(10)]
+        pub(crate) fn $name() {
+            let mut tape: Tape<4> = Tape::new();
+            tape.preload(K_U, 2, 0);
+            tape.preload(K_U, 4, $po);
+            tape.record = false;
+            let res = <Residuals<i32> as FromBitStreamUsing>::from_reader(&mut tape, ($block, $order));
+            vk_assert!(matches!(res, Err(Error::InvalidPartitionOrder)), "structural parser accepted a partition order RFC 9639 9.2.7 forbids for this block");
+        }
+    };
+}
+k_struct_res_reject!(k_struct_res_reject_b4_o2_p1, 4usize, 2usize, 1);
+k_struct_res_reject!(k_struct_res_reject_b16_o4_p2, 16usize, 4usize, 2);
+k_struct_res_reject!(k_struct_res_reject_b6_o0_p2, 6usize, 0usize, 2);
+k_struct_res_reject!(k_struct_res_reject_b2_o0_p2, 2usize, 0usize, 2);
